@@ -143,7 +143,7 @@ pub fn run(w: &mut impl std::io::Write) {
                 let opt: Vec<&str> = parts[1].split(' ').collect();
                 match (mem, ri, wi, parse_op(&opt)) {
                     (Some(mem), Some(ri), Some(wi), Some(op)) => {
-                        dispatch_t1!(n, &mem, ri, wi, &op, w, 0, 1, 2, 3, 4, 5, 6, 7, 8, 16, 32, 64, 255, 4096)
+                        dispatch_t1!(n, &mem, ri, wi, &op, w, 0, 1, 2, 3, 4, 5, 6, 7, 8, 9, 16, 17, 32, 33, 40, 48, 64, 96, 128, 130, 200, 255, 4096)
                     }
                     _ => false,
                 }
